@@ -70,8 +70,9 @@ def oracle(case, rec):
     if case['energy'] is not None:
         kw['energy_thresh'] = case['energy']
     xin = x[:, None].copy()
+    eo_live, xo_live = dict(eo), dict(xo)       # caller-owned dicts, reused for the repeated call below
     try:
-        imf, flag = emd.sift.get_next_imf(xin, envelope_opts=dict(eo), extrema_opts=dict(xo), **kw)
+        imf, flag = emd.sift.get_next_imf(xin, envelope_opts=eo_live, extrema_opts=xo_live, **kw)
         got = 'result'
     except emd.support.EMDSiftCovergeError:
         got = 'error'
@@ -83,6 +84,16 @@ def oracle(case, rec):
         raise Violation('C04/get_next_imf/raises/%s/%s' % (type(e).__name__, sm), repr(e))
     if not np.array_equal(xin[:, 0], x):
         raise Violation('C04/get_next_imf/input-modified', '')
+    if eo_live != eo or xo_live != xo:
+        raise Violation('C04/get_next_imf/option-dict-modified', 'envelope_opts %r -> %r, extrema_opts %r -> %r' % (eo, eo_live, xo, xo_live))
+    if got == 'result':
+        # the same extraction again with the same (reused) option objects must give the same iterate
+        try:
+            imf2, flag2 = emd.sift.get_next_imf(xin, envelope_opts=eo_live, extrema_opts=xo_live, **kw)
+        except Exception as e:
+            raise Violation('C04/get_next_imf/repeated-call-raises/' + type(e).__name__, repr(e))
+        if not np.array_equal(np.asarray(imf2), np.asarray(imf)) or bool(flag2) != bool(flag):
+            raise Violation('C04/get_next_imf/repeated-call-differs', 'same input and option objects, different iterate')
     well = r.margin_stop > 1e-9 and r.note == ''
 
     def mismatch(sig, msg):
